@@ -62,6 +62,12 @@ Theorem C16_seq_write_sticky_any_policy : forall p le f, spolicy_ok_on f p = tru
 Proof. exact seq_writer_never_called_again. Qed.
 Print Assumptions C16_seq_write_sticky_any_policy.
 
+(* Write and the Flush that follows return the same value *)
+Theorem C16_seq_write_flush_agree : forall le f script, sfile_in_range f current_spolicy = true ->
+  let r := seq_writer_run current_spolicy le f script in gr_write r = gr_flush r.
+Proof. exact current_seq_results_agree. Qed.
+Print Assumptions C16_seq_write_flush_agree.
+
 (* no false alarm, and non-vacuity of the above *)
 Theorem C16_seq_write_no_false_error : forall le f script, sfile_in_range f current_spolicy = true ->
   let r := seq_writer_run current_spolicy le f script in
@@ -226,6 +232,19 @@ Theorem C16_seq_read_partial : forall m pre r post,
   reports_error (fst (reader_seq current_rpolicy3 m (pre ++ r :: post))) = true.
 Proof. exact current_seq_read_partial. Qed.
 Print Assumptions C16_seq_read_partial.
+
+(* the converse, for every source: Read reports no I/O error (QParsed) only if the source
+   had no event at all, or its first event is io.EOF, or io.ErrUnexpectedEOF inside the
+   preview (known finding), or sits at the preview boundary (known finding) *)
+Theorem C16_seq_read_nil_only_if : forall m rs d,
+  fst (reader_seq current_rpolicy3 m rs) = QParsed d ->
+  (plain rs = true /\ d = data_of rs) \/
+  exists pre r post t, rs = pre ++ r :: post /\ plain pre = true /\ rr_term r = Some t /\
+    (at_boundary pre r \/
+     (d = data_of pre ++ rr_data r /\
+      (t = TEOF \/ (t = TErr RUnexpectedEOF /\ blen (data_of pre) + blen (rr_data r) < preview_size)))).
+Proof. exact current_seq_read_nil_only_if. Qed.
+Print Assumptions C16_seq_read_nil_only_if.
 
 (* io.ErrUnexpectedEOF is reported once the preview is full (below: the known finding) *)
 Theorem C16_seq_read_ueof_partial : forall p m pre r post,
